@@ -174,7 +174,8 @@ def check(case, ctx):
     else:
         want_langs = [case['force']] if case['force'] in langs else langs
     got_langs = [d['lang'] for d in doc['divs']]
-    if got_langs != want_langs:
+    # one div per written language; the order of the divs belongs to C14, not to this property
+    if sorted(map(str, got_langs)) != sorted(map(str, want_langs)):
         fails.append({'what': 'divs do not correspond to the written languages', 'expected': want_langs,
                       'got': got_langs, 'force': case['force']})
     else:
